@@ -365,6 +365,34 @@ def wraps(db, a, fid):
             for x in facts.walk(n["c"][0]):
                 if x["k"] == "DeclRefExpr" and a2.is_iter_type(facts.ty(f, x)):
                     ret_vars.add(x["var"])
+    # `return (x == c.end()) ? c.begin() : x;` - the same wrap written as one expression
+    rets = [n for n in facts.fn_nodes(f) if n["k"] == "ReturnStmt" and n.get("c")]
+
+    def is_begin(e):
+        return any(y["k"] == "CXXMemberCallExpr" and y.get("cname") == "begin" and a2.obj(cfg.receiver(y)) == ("container",)
+                   for y in facts.walk(e))
+
+    def cond_wrap(e):
+        e = facts.strip_all(e)
+        while e["k"] in ("CXXConstructExpr", "MaterializeTemporaryExpr", "CXXBindTemporaryExpr", "ExprWithCleanups") and len(e.get("c", [])) == 1:
+            e = facts.strip_all(e["c"][0])
+        if e["k"] != "ConditionalOperator":
+            return False
+        c0, t_, e_ = e["c"]
+        for v in ret_vars:
+            for x in facts.walk(c0):
+                if x["k"] == "CXXOperatorCallExpr" and x.get("op") in ("==", "!="):
+                    fake = {"k": "ParenExpr", "id": -1, "c": [dict(x, op="==")]}
+                    if is_end_test(a2, f, fake, v):
+                        at_end, other = (t_, e_) if x["op"] == "==" else (e_, t_)
+                        o0 = facts.strip_all(other)
+                        while o0["k"] in ("CXXConstructExpr", "MaterializeTemporaryExpr") and len(o0.get("c", [])) == 1:
+                            o0 = facts.strip_all(o0["c"][0])
+                        if is_begin(at_end) and o0["k"] == "DeclRefExpr" and o0.get("var") == v:
+                            return True
+        return False
+    if rets and all(cond_wrap(r_["c"][0]) for r_ in rets):
+        return True
     g = a2.g
     for v in ret_vars:
         ok = False
